@@ -10,5 +10,6 @@ CONSTANTS
   MaxOps = 4
   MaxHeads = 2
   KeepHist = TRUE
+  InactiveRefusedAtOnce = TRUE
 INVARIANTS NoTwoPooledTxsConflict
 CHECK_DEADLOCK FALSE
